@@ -338,7 +338,12 @@ def stage_c(ctx, procs):
         ck2 = K.reload(ck)
         ctx.traces += 1
         r1, r2, names = [], [], []
-        for nm in rec['names']:
+        # a trailing implicit digest is not part of the name that is matched: every matching name (and a few others)
+        # is asked once more with a digest component appended
+        plain = [nm for nm in rec['names'] if nm]
+        hitn = [nm for nm in plain if K.run_match(ck, nm)[1]]
+        extra = [nm + [K.DIGEST] for nm in hitn[:40] + ctx.rng.sample(plain, min(10, len(plain)))] + [[K.DIGEST]]
+        for nm in rec['names'] + extra:
             s1, a = K.run_match(ck, nm)
             s2, b = K.run_match(ck2, nm)
             ctx.evaluations += 2
